@@ -16,6 +16,8 @@ CLASSES = {
     "multi": dict(capital=True, splits=True, n_sec=(2, 4), steps=(4, 12), templates_p=0.5),
     "single_dense": dict(capital=False, splits=True, n_sec=(1, 1), steps=(8, 18), templates_p=0.6),
     "plain": dict(capital=False, splits=False, n_sec=(1, 3)),
+    # labelled class: a SPLIT/UNSPLIT may share a date with a BUY/SELL of the same security (finding F15)
+    "split_on_trade_date": dict(capital=False, splits=True, strict=False, n_sec=(1, 2), steps=(4, 10), sell_p=0.4),
 }
 
 
@@ -118,8 +120,20 @@ def classify_diff(base, var, ra, rb, diffs_full, diffs_merged):
     return "variants-differ-in-leg-gains"
 
 
+F15_SIG = "F15:line-order-matters-when-split-and-trade-share-a-date"
+
+
 def compare_variant(base, var, oa, ob, cnt, vclass):
     """-> list of violations for one (base, variant) pair."""
+    v = _compare_variant(base, var, oa, ob, cnt, vclass)
+    if v and f15_shape(base) and vclass.startswith("perm"):
+        for x in v:
+            if not x["signature"].startswith("F16"):
+                x["signature"] = F15_SIG
+    return v
+
+
+def _compare_variant(base, var, oa, ob, cnt, vclass):
     v = []
     if "panic" in oa or "panic" in ob:
         cnt["panic(routed to C15)"] += 1
@@ -236,7 +250,7 @@ def run_cli(desc):
     hashes = set()
     samples = []
     for _ in range(desc["n"]):
-        base, _f = gen_ledger(rng, Opts(**CLASSES[rng.choice(list(CLASSES))]))
+        base, _f = gen_ledger(rng, Opts(**CLASSES[rng.choice(["multi", "single_dense", "plain"])]))
         lines = render_dsl(base).splitlines()
         k = rng.randint(1, min(5, len(lines)))
         ordered = rng.random() < 0.5
